@@ -312,14 +312,23 @@ def check_C11(ctx):
         if ctx.time_left() < 15:
             break
         s = Session(ctx)
-        s.new(0, list(so))
         extra = rng.random() < 0.5
         tnames = list(to)
         if extra:
             tnames = tnames[:]
             tnames.insert(rng.randrange(4), 'x')
             tnames.insert(rng.randrange(5), 'y')
-        s.new(1, tnames)
+        if rng.random() < 0.5:
+            s.new(0, list(so))
+            s.new(1, tnames)
+        else:
+            # both managers DECLARE the variables in the same sequence and reach their orders by
+            # reordering afterwards (the declaration order of `vars` then differs from the levels)
+            s.new(0, sorted(so))
+            s.new(1, sorted(tnames))
+            s.op(0, 'reorder', ','.join(f'{v}={i}' for i, v in enumerate(so)))
+            s.op(1, 'reorder', ','.join(f'{v}={i}' for i, v in enumerate(tnames)))
+            ctx.count('copy:orders-by-reordering')
         if rng.random() < 0.6:
             # pre-existing nodes in the target
             for _ in range(rng.randint(1, 10)):
